@@ -5,6 +5,9 @@ import (
 	"os"
 	"path/filepath"
 	"strings"
+	"sync"
+
+	textwire "github.com/textwire/textwire/v2"
 
 	"verif/core"
 )
@@ -47,6 +50,9 @@ var preludeKinds = []struct{ name, src string }{
 	{"strings-that-end-with-a-line-end", "{{ \"x\n\" }}{{ 'a\\'\n' + '' }}{{ \"\n\n\" }}\n"},
 	{"comments-with-dashes", "{{-- a - b\n -- c -\n- --}}{{-- - --}}\n"},
 }
+
+// c13Current is the Template the registered function render13 renders from
+var c13Current *textwire.Template
 
 type faultKind struct {
 	name    string
@@ -313,6 +319,72 @@ func init() {
 					}
 				}})
 			// template trees: line and absolute path
+			// renders of one loaded Template that overlap: a page that renders another page through a registered function
+			// before its own fault, and pages rendered from several goroutines at once - every fault names its own file
+			secs = append(secs, core.Section{Name: "overlapping-renders-of-one-template", Exhaustive: true, N: 2,
+				Run: func(c *core.Ctx, i int) {
+					files := map[string]string{"other.tw": "other page\n", "deep/also.tw": "l1\nl2\n{{ missing_in_also }}\n",
+						"nested.tw": "line one\n{{ \"other\".render13() }}\n{{ \"deep/also\".render13() }}\nline four\n{{ missing_in_nested }}\n"}
+					for k := 0; k < 8; k++ {
+						files[fmt.Sprintf("p%d.tw", k)] = strings.Repeat("text\n", k+1) + fmt.Sprintf("{{ \"other\".render13() }}{{ missing_%d }}\n", k)
+					}
+					tpl, err := loadTree(c, "c13overlap", files, ".tw")
+					c.Nontrivial(fmt.Sprint("overlap", i))
+					if err != nil || tpl == nil {
+						if err != nil {
+							c.Violation("overlap:load-failed", err.Error(), nil)
+						}
+						return
+					}
+					c13Current = tpl
+					defer func() { c13Current = nil }()
+					textwire.RegisterStrFunc("render13", func(name string, _ ...any) string {
+						if c13Current == nil {
+							return ""
+						}
+						out, _ := c13Current.String(name, nil)
+						return out
+					})
+					abs := func(n string) string { p, _ := filepath.Abs("c13overlap/" + n + ".tw"); return p }
+					if i == 0 {
+						got, fe := renderPage(c, tpl, "nested", nil)
+						if got.Panicked {
+							return
+						}
+						if fe == nil || fe.Line() != 5 || fe.Filepath() != abs("nested") {
+							c.Violation("overlap:nested-render", fmt.Sprintf("the fault on line 5 of nested.tw, after two pages were rendered from inside it, gave %s", got.Describe()), map[string]any{"files": describeFiles(files)})
+						}
+						return
+					}
+					var wg sync.WaitGroup
+					bad := make([]string, 8)
+					for g := 0; g < 8; g++ {
+						wg.Add(1)
+						go func(g int) {
+							defer wg.Done()
+							defer func() {
+								if r := recover(); r != nil {
+									bad[g] = fmt.Sprint("panic: ", r)
+								}
+							}()
+							for n := 0; n < 150; n++ {
+								_, fe := tpl.String(fmt.Sprintf("p%d", g), nil)
+								if fe == nil || int(fe.Line()) != g+2 || fe.Filepath() != abs(fmt.Sprintf("p%d", g)) {
+									bad[g] = fmt.Sprintf("the fault on line %d of p%d.tw was reported as %v", g+2, g, fe)
+									return
+								}
+							}
+						}(g)
+					}
+					wg.Wait()
+					c.Eval(8 * 150)
+					for _, b := range bad {
+						if b != "" {
+							c.Violation("overlap:concurrent-renders", b, map[string]any{"files": describeFiles(files)})
+							return
+						}
+					}
+				}})
 			secs = append(secs, core.Section{Name: "trees", N: nTree, Run: func(c *core.Ctx, i int) { lineTreeCase(c, i) }})
 			return secs
 		},
